@@ -502,23 +502,14 @@ impl<R: Read + Seek> Seek for CompressionLayerReader<'_, R> {
                         }
 
                         let end_pos = self.sizes_info.as_ref().unwrap().max_uncompressed_pos();
-                        let distance_from_end = -pos;
-                        if distance_from_end >= 0 {
-                            self.seek(SeekFrom::Start(
-                                end_pos
-                                    - u64::try_from(distance_from_end).map_err(|_| {
-                                        io::Error::new(
-                                            io::ErrorKind::InvalidInput,
-                                            "Invalid distance_from_end value",
-                                        )
-                                    })?,
-                            ))
-                        } else {
-                            Err(io::Error::new(
+                        // `pos` is negative or null here
+                        let new_pos = end_pos.checked_sub(pos.unsigned_abs()).ok_or_else(|| {
+                            io::Error::new(
                                 io::ErrorKind::InvalidInput,
-                                "Negative seek offset",
-                            ))
-                        }
+                                "Resulting position is negative",
+                            )
+                        })?;
+                        self.seek(SeekFrom::Start(new_pos))
                     }
                 }
             }
